@@ -4,7 +4,9 @@ PROP = dict(
     level_text="Generated histories of translation batches for 2 indexes x 2 fields (6 key namespaces) run against a real TranslateFile with a small map size: "
                "keys come from a pool of 520 generic keys (bulk batches of 225-520 keys force the 256->512->1024 robin-hood growths, also on top of existing entries), "
                "precomputed families of keys sharing xxhash&1023 (buckets 1023, 0, 17: probe chains that wrap around the table end) or only xxhash&255, 1-byte keys, "
-               "5 KiB and 9 KiB keys (entries larger than the 4 KiB write buffer), Unicode (precomposed vs decomposed forms are different keys), prefixes, the empty key, "
+               "5 KiB and 9 KiB keys (entries larger than the 4 KiB write buffer), keys of byte length 127/128/129, 255/256/257, 383/384/385, 4095/4096/4097, 16383/16384/16385 and generated lengths "
+               "(uvarint width boundaries of the length prefix, multiples of 128), fresh keys sized so that the whole log entry has a body of exactly 127/128/16383/16384 bytes or a total of "
+               "4095-4097 / 8191-8193 bytes, occasionally 16500 keys in one namespace (three-byte id varints), Unicode (precomposed vs decomposed forms are different keys), prefixes, the empty key, "
                "with repeats inside and across batches; reverse lookups of allocated and never-allocated ids; Close+Open at generated points and always at the end. "
                "Every returned id must be positive, equal to the id first returned for that key, and different from the id of every other key of the namespace; reverse "
                "translation returns the key. Concurrent unit: 4 goroutines issue overlapping batches plus a reader; all callers must agree (run under -race in the thorough tier). "
@@ -16,15 +18,17 @@ PROP = dict(
                "torn log tails after a crash (C09), logs larger than the configured map size (configuration precondition). Concurrent schedules are whatever the Go scheduler produces.",
     rule="seq: 1-22 operations (translate small batch 0-7 keys with likely repeats / bulk batch / reverse lookup / Close+Open / re-verify all); distinct = hash of the operation trace; "
          "non-trivial = a batch repeats a key that is new in that batch, or crosses a growth threshold (230 or 460 keys in a namespace), or writes an entry with a key > 4 KiB. "
-         "conc: 4 workers x 1-5 batches over 2 namespaces from a 12-key window + special keys, every worker also replays worker 0's first batch; non-trivial = >= 4 keys submitted. "
+         "edge: map size 4096/5000/8192/32768, generated filler entries, then closing entries sized so that the log ends exactly at the map size (or 1-2 bytes before); "
+         "lookups, a replica with the same map size, Close+Open; non-trivial = the log ended exactly at the target. conc: 4 workers x 1-5 batches over 2 namespaces from a 12-key window + special keys, every worker also replays worker 0's first batch; non-trivial = >= 4 keys submitted. "
          "repl: 1-14 operations (primary write / stream up to a generated offset / replica Close+Open / primary Close+Open / lookups on the replica); non-trivial = resume or cut at an "
          "interior entry boundary, a cut inside an entry, or a replica reopened while behind the primary. live: non-trivial = replica resumed behind the primary or any entry streamed. http: 2-8 requests of 1-4 Set(colKey, f=rowKey) calls on a keyed index, replica closed/reattached; non-trivial = resumed behind the node.",
-    assumptions=["the log stays far below the configured map size (8 MiB here)",
+    assumptions=["the log never exceeds the configured map size (8 MiB in most units; the edge unit fills the map exactly)",
                  "ids need not be dense or ordered",
                  "live unit: a replica that has not caught up within 120 s of an idle primary is reported as stuck"],
     tags=[],
     units=[
         U("seq", ".", "^TestVerifC24_Sequential$", 400, 8000, sq=4, sth=5),
+        U("edge", ".", "^TestVerifC24_MapEdge$", 80, 1600, sq=1, sth=1),
         U("conc", ".", "^TestVerifC24_Concurrent$", 160, 2000, sq=2, sth=2),
         U("conc_race", ".", "^TestVerifC24_Concurrent$", 0, 800, sq=1, sth=2, race=True, tiers=["thorough"]),
         U("repl", ".", "^TestVerifC24_Replication$", 400, 8000, sq=4, sth=4),
